@@ -378,7 +378,16 @@ fn run_shard(ctx: &mut Ctx) {
                 continue;
             }
             let case = json!({"kind": "format", "src": text, "options": opts_json(&o), "runnable": runnable});
-            ctx.run_case(&case, || check_format(text, o, *runnable).class(class));
+            let ev = ctx.run_case(&case, || check_format(text, o, *runnable).class(class));
+            // the same text with CRLF line endings (only where the LF form passes, so that findings keyed by
+            // their input are not reported twice)
+            if ev.map(|e| e.fail.is_none() && !e.discard).unwrap_or(false) && !text.contains('\r') && text.len() <= 4000 && fnv(format!("{}:crlf:{idx}", ctx.seed).as_bytes()) % 3 == 0 {
+                let crlf = text.replace('\n', "\r\n");
+                if koto_parser::Parser::parse(&crlf).is_ok() {
+                    let case = json!({"kind": "format", "src": crlf, "options": opts_json(&o), "runnable": runnable});
+                    ctx.run_case(&case, || check_format(&crlf, o, *runnable).class("crlf"));
+                }
+            }
         }
     }
     // `#[fmt: skip]` directives: simple one-line statements of the corpus get the directive, their
